@@ -41,6 +41,8 @@ elif mode == 'genhdr':          # genhdr IN OUT  (IN: "MACRO VAL")
     inp, out = sys.argv[2], sys.argv[3]
     name, val = open(inp).read().split()[:2]
     open(out, 'w').write('#pragma once\n#define %s %s\n' % (name, val))
+elif mode == 'gencpp':          # gencpp OUT NAME -> a C++ source exporting one C function
+    open(sys.argv[2], 'w').write('extern "C" int %s(void) { return 1; }\n' % sys.argv[3])
 elif mode == 'vscript':         # vscript OUT -> a linker version script exporting everything
     open(sys.argv[2], 'w').write('{ global: *; };\n')
 elif mode == 'value':           # value OUT VAL [INFILES...] -> text file with a number
@@ -209,6 +211,10 @@ def gen_project(rng: random.Random, size: str = 'small') -> T.Dict[str, T.Any]:
             e2 = {'kind': 'exe', 'name': 'elast', 'uses': ['hr'], 'seg': r['seg'], 'hdr_via': 'sources', 'link_with': [], 'deps': [], 'pairs': [],
                   'pair_hdr_only': [], 'gsrcs': [], 'subp': False}
             ents.append(e2)
+    # targets that also have C++ sources, one of them generated by a custom target (mixed-language unity builds)
+    for e in ents:
+        if e['kind'] in ('lib', 'exe') and rng.random() < 0.3:
+            e['cpp'] = True
     # a linker version script made by a custom target, handed to the link step through link_depends:
     for e in ents:
         if (e['kind'] == 'exe' or (e['kind'] == 'lib' and e['libkind'] == 'shared_library')) and rng.random() < 0.2:
@@ -244,7 +250,7 @@ def gen_project(rng: random.Random, size: str = 'small') -> T.Dict[str, T.Any]:
         cur = max(cur, e['seg'])
         e['seg'] = cur
     return {'ents': ents, 'segs': segs, 'subp': have_subp, 'subp_val': rng.randint(1, 9),
-            'default_library': rng.choice(['shared', 'static', 'both']), 'unity': rng.choice(['off', 'off', 'on'])}
+            'default_library': rng.choice(['shared', 'static', 'both']), 'unity': rng.choice(['off', 'off', 'on']), 'unity_size': rng.choice([4, 4, 2])}
 
 
 def link_closure(e: T.Dict[str, T.Any], byname: T.Dict[str, T.Dict[str, T.Any]]) -> T.List[str]:
@@ -304,7 +310,9 @@ def render(spec: T.Dict[str, T.Any], sd: str) -> None:
     with open(os.path.join(sd, 'data.txt'), 'w') as f:
         f.write('data 5\n')
     files: T.Dict[int, T.List[str]] = {}
-    top: T.List[str] = [f"project('c05', 'c', default_options: ['default_library={spec['default_library']}', 'unity={spec['unity']}', 'warning_level=1'])\n",
+    langs = "'c', 'cpp'" if any(e.get('cpp') for e in ents) else "'c'"
+    top: T.List[str] = [f"project('c05', {langs}, default_options: ['default_library={spec['default_library']}', 'unity={spec['unity']}', "
+                        f"'unity_size={spec.get('unity_size', 4)}', 'warning_level=1'])\n",
                         "py = find_program('python3')\n", "genpy = files('gen.py')\n", "datafile = files('data.txt')\n", "inc = include_directories('.')\n",
                         "gen = generator(py, output: '@BASENAME@.c', arguments: [genpy[0], 'gensrc', '@INPUT@', '@OUTPUT@'])\n"
                         if False else "gen = generator(py, output: '@BASENAME@.c', arguments: ['@SOURCE_ROOT@/gen.py', 'gensrc', '@INPUT@', '@OUTPUT@'], depends: [])\n"]
@@ -329,6 +337,9 @@ def render(spec: T.Dict[str, T.Any], sd: str) -> None:
         for l in e.get('link_with', []) + e.get('link_whole', []) + ([e['extract_from']] if e.get('extract_from') else []):
             lines.append(f'int {l}_f(void);')
             terms.append(f'{l}_f()')
+        if e.get('cpp'):
+            lines += [f"int {e['name']}_x(void);", f"int {e['name']}_gx(void);"]
+            terms += [f"{e['name']}_x()", f"{e['name']}_gx()"]
         if e.get('gtool_src'):
             lines.append(f"int {e['gtool_src']}_f(void);")
             terms.append(f"{e['gtool_src']}_f()")
@@ -431,6 +442,11 @@ def render(spec: T.Dict[str, T.Any], sd: str) -> None:
                 with open(os.path.join(srcdir, f'{n}_pub.hin'), 'w') as f:
                     f.write(f'{n.upper()}_PUB {3 + len(n)}\n')
                 srcs.append(f"genh.process('{n}_pub.hin')")
+            if e.get('cpp'):
+                with open(os.path.join(srcdir, f'{n}_x.cpp'), 'w') as f:
+                    f.write(f'extern "C" int {n}_x(void) {{ return 2; }}\n')
+                out.append(f"gx_{n} = custom_target('gx_{n}', output: '{n}_gx.cpp', command: [py, genpy, 'gencpp', '@OUTPUT@', '{n}_gx'])\n")
+                srcs += [q(f'{n}_x.cpp'), f'gx_{n}']
             if e.get('vscript'):
                 out.append(f"vs_{n} = custom_target('vs_{n}', output: 'vs_{n}.map', command: [py, genpy, 'vscript', '@OUTPUT@'])\n")
                 kw.append(f"link_args: ['-Wl,--version-script,' + (meson.current_build_dir() / 'vs_{n}.map')]")
